@@ -640,3 +640,40 @@ Proof.
     + intros _ Hx. apply filter_In in Hx as [_ Hb]. rewrite Nat.eqb_refl in Hb. discriminate.
     + discriminate.
 Qed.
+
+(* ---- tree[key] as one function of forest and registry (no index) ---------- *)
+Definition getitem_spec (f : forest) (reg : list (Z * nat)) (k : key) : res nat :=
+  match k with
+  | KNode _ => Err EValue
+  | KNone => Err ENotImpl
+  | _ =>
+      match (match key_as_node_id k with Some z => reg_get z reg | None => None end) with
+      | Some n => Ok n
+      | None =>
+          let by_data := match key_calc k with Some c => classify (all_by_did f c) | None => Err ENotImpl end in
+          match key_as_did k with
+          | Some d => match all_by_did f d with [] => by_data | l => classify l end
+          | None => by_data
+          end
+      end
+  end.
+
+Lemma getitem_is_spec st k : state_wf st -> getitem st k = getitem_spec (t_forest st) (t_reg st) k.
+Proof.
+  intros W. destruct k as [c| |z c|s c|c]; try reflexivity.
+  - cbn [getitem_spec key_as_node_id key_as_did key_calc].
+    destruct (reg_get z (t_reg st)) as [n|] eqn:R; [apply getitem_node_id; exact R|].
+    destruct (all_by_did (t_forest st) (DInt z)) as [|a l] eqn:A.
+    + apply (getitem_data st (KInt z c) c W); [discriminate|exact R| |reflexivity].
+      intros d E. injection E as <-. exact A.
+    + rewrite <- A. apply (getitem_data_id st (KInt z c) (DInt z) W); [discriminate|exact R|reflexivity|].
+      rewrite A. discriminate.
+  - cbn [getitem_spec key_as_node_id key_as_did key_calc].
+    destruct (all_by_did (t_forest st) (DStr s)) as [|a l] eqn:A.
+    + apply (getitem_data st (KStr s c) c W); [discriminate|reflexivity| |reflexivity].
+      intros d E. injection E as <-. exact A.
+    + rewrite <- A. apply (getitem_data_id st (KStr s c) (DStr s) W); [discriminate|reflexivity|reflexivity|].
+      rewrite A. discriminate.
+  - cbn [getitem_spec key_as_node_id key_as_did key_calc].
+    apply (getitem_data st (KObj c) c W); [discriminate|reflexivity|discriminate|reflexivity].
+Qed.
